@@ -662,7 +662,7 @@ pub fn run(ctx: &Ctx) -> (Report, String) {
     }
     // shards are small worker processes; a crash loses at most one shard's counters
     let shards: usize = if ctx.tier == Tier::Quick { 64 } else { 640 };
-    let per_shard: u64 = ctx.n(3000, 12000);
+    let per_shard: u64 = ctx.n(12000, 12000);
     let stall = Duration::from_secs(if ctx.stage == "chk" || ctx.stage == "rel" { 60 } else { 240 });
     let reps = crate::util::par_shards(shards, ctx.threads, |s| {
         let mut rep = Report::new();
@@ -714,8 +714,8 @@ pub fn run(ctx: &Ctx) -> (Report, String) {
     });
     let mut rep = Report::merge_all(reps);
     if ctx.is_main() {
-        rep.require("decode_calls", if ctx.tier == Tier::Quick { 200_000 } else { 5_000_000 } * ctx.scale_pct / 100);
-        rep.require("mb_loop_iterations_observed", 100_000 * ctx.scale_pct / 100);
+        rep.require("decode_calls", if ctx.tier == Tier::Quick { 1_000_000 } else { 10_000_000 } * ctx.scale_pct / 100);
+        rep.require("mb_loop_iterations_observed", 1_000_000 * ctx.scale_pct / 100);
         for k in ["outcome=Ok", "class=mutated", "class=extra-macroblocks", "class=size-change", "class=umv-chain", "class=degenerate-header", "history_mode=one-reader", "options=sorenson:true/scal:false", "options=sorenson:false/scal:false", "options=sorenson:true/scal:true", "options=sorenson:false/scal:true"] {
             rep.require(k, 100 * ctx.scale_pct / 100);
         }
